@@ -258,4 +258,46 @@ end
 /-- The invariant of the VM's mutual block, with the generator's part discharged. -/
 theorem allSafe' (fuel : Nat) : AllSafe fuel := allSafe (fun isFn c e => genOK_compile isFn e c) fuel
 
+/-! ## Whole texts -/
+
+theorem wf_initSt : WF initSt := by
+  refine ⟨?_, ?_, ?_, ?_⟩ <;> simp [initSt, idsOf]
+
+theorem step_setMain (s : St) (mf : FnObj) (hc : mf.closing = (fnOf s mainFn).closing)
+    (hp : mf.parent = (fnOf s mainFn).parent) :
+    Step s { s with fns := s.fns.set mainFn mf, curfunc := mainFn } := by
+  refine Step.of_scopes_same rfl (by simp) (fun i _ => ?_) (fun w => w.linear) (fun w => w.suspended)
+    (fun w f hf => ?_) (fun w => w.lazies)
+  · by_cases hi : i = mainFn
+    · subst hi
+      by_cases hl : mainFn < s.fns.length
+      · simp [fnOf, List.getD_eq_getElem?_getD, hl, hc, hp]
+      · simp only [fnOf]
+        rw [List.set_eq_of_length_le (by omega)]
+        exact ⟨rfl, rfl⟩
+    · simp [fnOf, List.getD_eq_getElem?_getD, List.getElem?_set_ne (Ne.symm hi)]
+  · rcases List.mem_or_eq_of_mem_set hf with hf | hf
+    · exact w.closing f hf
+    · subst hf
+      rw [hc]
+      rcases getD_mem_or_default s.fns mainFn {} with hm | hd
+      · exact w.closing _ hm
+      · intro id hid
+        simp only [fnOf, hd] at hid
+        simp [idsOf] at hid
+
+theorem runText_step (fuel : Nat) (es : List Expr) (s : St) : Step s (runText fuel es s).2.1 := by
+  unfold runText
+  extract_lets s1 pre load
+  have h0 : Step s s1 := Step.of_same rfl rfl rfl rfl rfl
+  have hload : Step s1 load.2 :=
+    safe_runGen (compileBegin (isFnScope s1) {} es) (fun gs a gs' h => genOK_compileBegin _ es {} gs a gs' h) s1
+  split
+  · exact h0.trans hload
+  · extract_lets sb rr sc
+    have h3 : Step load.2 sb := by apply step_setMain <;> rfl
+    have h4 : Step sb sc := (allSafe' fuel).run sb
+    have h04 := h0.trans (hload.trans (h3.trans h4))
+    split <;> exact h04
+
 end ZygoVerif.Scope
